@@ -11,7 +11,7 @@ Definition ctl_ok (a : cact) : Prop :=
   match a with
   | CRestart _ tx eff | CAppend tx eff =>
     let t := if eff then tx else TNoop in preserving t /\ attrs_ok t
-  | CForwardDrop _ => False
+  | CForwardDrop _ | CSever _ => False
   | _ => True
   end.
 
@@ -29,7 +29,7 @@ Proof. induction l as [|x l IH]; intros [|i] H; simpl; auto; inversion H; subst;
 Theorem ctl_preserves l a l' :
   link_ok l -> ctl_ok a -> ctl_step l a = Some l' -> link_ok l' /\ stream l' = stream l.
 Proof.
-  intros Hok Ha Hstep. destruct a as [i|i tx eff|tx eff|i|i|i]; simpl in Hstep, Ha.
+  intros Hok Ha Hstep. destruct a as [i|i tx eff|tx eff|i|i|i|i]; simpl in Hstep, Ha.
   - (* interrupt *)
     destruct (nth_error (l_stubs l) i) as [s|] eqn:Hn; [|discriminate].
     destruct (listens_interrupt s); [|discriminate]. inversion Hstep; subst l'; clear Hstep.
@@ -78,7 +78,8 @@ Proof.
       unfold seg at 1; simpl. rewrite Hh. reflexivity.
   - (* forward *)
     destruct (nth_error (l_stubs l) i) as [s|] eqn:Hn; [|discriminate].
-    destruct (is_exited s) eqn:Hex; [|discriminate].
+    destruct (is_exited s && negb (s_closed s)) eqn:Hex0; [|discriminate].
+    apply andb_prop in Hex0 as [Hex _].
     destruct (s_inq s) as [|c q] eqn:Hq; [discriminate|].
     destruct (nth_split _ _ _ Hn) as (pre & post & Hl & Hlen). subst i.
     destruct (offer l (S (length pre)) c) as [l1|] eqn:Hoff; [|discriminate].
@@ -98,16 +99,17 @@ Proof.
   - contradiction.
   - (* delete *)
     destruct (nth_error (l_stubs l) i) as [s|] eqn:Hn; [|discriminate].
-    destruct (is_exited s && match s_inq s with [] => true | _ => false end && negb (Nat.eqb i 0)) eqn:Hc; [|discriminate].
+    destruct (is_exited s && negb (s_closed s) && match s_inq s with [] => true | _ => false end && negb (Nat.eqb i 0)) eqn:Hc; [|discriminate].
     inversion Hstep; subst l'; clear Hstep.
     destruct (nth_split _ _ _ Hn) as (pre & post & Hl & Hlen). subst i.
-    apply andb_prop in Hc as [Hc _]. apply andb_prop in Hc as [Hex Hq].
+    apply andb_prop in Hc as [Hc _]. apply andb_prop in Hc as [Hex Hq]. apply andb_prop in Hex as [Hex _].
     unfold is_exited in Hex. destruct (s_st s) eqn:Hst; try discriminate.
     destruct (s_inq s) eqn:Hinq; [|discriminate].
     assert (Hseg : seg s = []) by (unfold seg; rewrite Hst, Hinq; reflexivity).
     split.
     + unfold link_ok; simpl. apply forall_remove_nth. exact Hok.
     + unfold stream, sink_bytes, pending; simpl. rewrite Hl. now rewrite (flow_remove_nth pre s post Hseg).
+  - contradiction.
 Qed.
 
 Definition mact_ok (a : mact) : Prop :=
